@@ -27,6 +27,9 @@ CHECKS = {
  "C06": ("exhaustive enumeration (secret lengths x capacities, calendar days) + generated inputs compared byte-for-byte with an independent HMAC-SHA256 chain",
          "every length/capacity pair and the calendar edge cases are enumerated completely; random secrets, dates, regions and services are compared with the model's own SHA-256/HMAC on all ten derivation paths",
          "DESIGN.md §5 C06"),
+ "C07": ("metamorphic trace comparison: ptrace single-stepped instruction-address traces of the whole validation under a byte-wise early-exit memcmp/bcmp, over generated (request, key, first-wrong-position) variants",
+         "for each generated request the trace of refusing a wrong signature must be identical for every first-wrong position (17 positions quick, all 64 + tails thorough); decides control-flow independence on this build, not microarchitectural timing",
+         "DESIGN.md §5 C07"),
  "C08": ("property-based robustness testing with panic capture: arbitrary and oversized requests, post-signing mutations, direct calls of every public operation",
          "no-panic is asserted over arbitrary request shapes, 64-200 KiB folded bodies, near-limit URIs, every charset label and direct API calls with hostile arguments; thorough tier adds a libFuzzer campaign",
          "DESIGN.md §5 C08"),
@@ -64,7 +67,7 @@ CHECKS = {
          "for each kind of duplicate both the must-accept and the must-reject population are generated; acceptance additionally checks the access key / token the provider saw",
          "DESIGN.md §5 C19"),
 }
-PENDING = {"C07": "ptrace instruction-trace check not built yet (work in progress; DESIGN.md §5 C07)"}
+PENDING = {}
 
 def main():
     props = [json.loads(l) for l in open(os.path.join(HERE, "properties.jsonl"))]
